@@ -66,6 +66,31 @@ theorem causeFields_short (g : UInt8 → Bytes → CRes) (fuel : Nat) (t : UInt8
   | zero => rfl
   | succ fuel => simp [causeFields, ht, hl]
 
+theorem causeLayer_map_short (E : UInt8 → Bytes → CRes) (b : Bytes) (h : b.length < 6) :
+    causeLayer E TT.MAP b = .error .truncated := by
+  unfold causeLayer
+  simp only [show ¬ fixedSize TT.MAP > 0 by decide, show TT.MAP ≠ TT.STRING by decide,
+    show TT.MAP ≠ TT.STRUCT by decide, show ¬ (TT.MAP = TT.LIST ∨ TT.MAP = TT.SET) by decide, if_true, if_false]
+  match b, h with
+  | [], _ => rfl
+  | [_], _ => rfl
+  | kt :: vt :: rest, h =>
+    have : rest.length < 4 := by simp at h; omega
+    simp [this]
+
+theorem causeLayer_list_short (E : UInt8 → Bytes → CRes) (t : UInt8) (htl : t = TT.LIST ∨ t = TT.SET)
+    (b : Bytes) (h : b.length < 5) : causeLayer E t b = .error .truncated := by
+  unfold causeLayer
+  have hf0 : ¬ fixedSize t > 0 := by rcases htl with h | h <;> subst h <;> decide
+  have hns : t ≠ TT.STRING := by rcases htl with h | h <;> subst h <;> decide
+  have hnst : t ≠ TT.STRUCT := by rcases htl with h | h <;> subst h <;> decide
+  simp only [hf0, hns, hnst, htl, if_true, if_false]
+  match b, h with
+  | [], _ => rfl
+  | et :: rest, h =>
+    have : rest.length < 4 := by simp at h; omega
+    simp [this]
+
 section
 variable {P : Rd → Prop} {bnd : Nat}
 
@@ -358,11 +383,11 @@ theorem cbr_map_case (hC : RdC P True bnd) (hbnd : reqBound ≤ bnd) (d : Nat)
         if ksz > 0 ∧ vsz > 0 then brSkipn ((szu : Int) * (ksz + vsz)) r1
         else brMapLoop (skipBRAt d) kt vt ksz vsz szu r1)
       (causeLayer (causeElem (causeStream d)) TT.MAP r.remaining) r := by
-  unfold causeLayer
-  simp only [Out.bind_eq, Out.bind_ok, show ¬ fixedSize TT.MAP > 0 by decide, show TT.MAP ≠ TT.STRING by decide,
-    show TT.MAP ≠ TT.STRUCT by decide, show ¬ (TT.MAP = TT.LIST ∨ TT.MAP = TT.SET) by decide, if_true, if_false]
   rcases cbrNext hC r 6 hp (by omega) (Nat.le_trans (by decide) hbnd) with ⟨r1, hx, h6, hrem1, hri1, hp1⟩ | ⟨se, hx, hl⟩
-  · have h6' : 6 ≤ r.remaining.length := h6
+  · unfold causeLayer
+    simp only [Out.bind_eq, Out.bind_ok, show ¬ fixedSize TT.MAP > 0 by decide, show TT.MAP ≠ TT.STRING by decide,
+      show TT.MAP ≠ TT.STRUCT by decide, show ¬ (TT.MAP = TT.LIST ∨ TT.MAP = TT.SET) by decide, if_true, if_false]
+    have h6' : 6 ≤ r.remaining.length := h6
     obtain ⟨kt, vt, x0, x1, x2, x3, tl0, hr0⟩ := exists_cons6 r.remaining h6'
     obtain ⟨rest, hr, hrest⟩ : ∃ rest, r.remaining = kt :: vt :: rest ∧ 4 ≤ rest.length :=
       ⟨x0 :: x1 :: x2 :: x3 :: tl0, hr0, by simp⟩
@@ -411,21 +436,7 @@ theorem cbr_map_case (hC : RdC P True bnd) (hbnd : reqBound ≤ bnd) (d : Nat)
     · have hnn : toI32 N < 0 := by rw [toI32_neg_iff _ hlt]; exact hn
       simp only [hnn, hn, not_false_eq_true, if_true]
       exact ⟨errNeg, rfl, ErrFor.neg⟩
-  · have hlt : r.remaining.length < 6 := hl
-    have htr : (match r.remaining with
-        | kt :: vt :: rest =>
-          if rest.length < 4 then (.error .truncated : CRes)
-          else if ¬ rd32 rest < 2147483648 then .error .negativeSize
-          else (causeKV (causeElem (causeStream d) kt) (causeElem (causeStream d) vt) (rd32 rest)
-            (rest.drop 4)).map (6 + ·)
-        | _ => .error .truncated) = .error .truncated := by
-      match hr : r.remaining with
-      | [] => rfl
-      | [_] => rfl
-      | kt :: vt :: rest =>
-        have : rest.length < 4 := by rw [hr] at hlt; simp at hlt; omega
-        simp [this]
-    rw [htr]
+  · rw [causeLayer_map_short _ _ hl]
     exact ⟨.wrap se, by simp [hx], ErrFor.trunc se⟩
 
 theorem cbr_list_case (hC : RdC P True bnd) (hbnd : reqBound ≤ bnd) (d : Nat) (t : UInt8)
@@ -440,13 +451,13 @@ theorem cbr_list_case (hC : RdC P True bnd) (hbnd : reqBound ≤ bnd) (d : Nat) 
         if vsz > 0 then brSkipn ((szu : Int) * vsz) r1
         else brListLoop (skipBRAt d) vt szu r1)
       (causeLayer (causeElem (causeStream d)) t r.remaining) r := by
-  unfold causeLayer
   have hf0 : ¬ fixedSize t > 0 := by rcases htl with h | h <;> subst h <;> decide
   have hns : t ≠ TT.STRING := by rcases htl with h | h <;> subst h <;> decide
   have hnst : t ≠ TT.STRUCT := by rcases htl with h | h <;> subst h <;> decide
-  simp only [Out.bind_eq, Out.bind_ok, hf0, hns, hnst, htl, if_true, if_false]
   rcases cbrNext hC r 5 hp (by omega) (Nat.le_trans (by decide) hbnd) with ⟨r1, hx, h5, hrem1, hri1, hp1⟩ | ⟨se, hx, hl⟩
-  · have h5' : 5 ≤ r.remaining.length := h5
+  · unfold causeLayer
+    simp only [Out.bind_eq, Out.bind_ok, hf0, hns, hnst, htl, if_true, if_false]
+    have h5' : 5 ≤ r.remaining.length := h5
     obtain ⟨et, x0, x1, x2, x3, tl0, hr0⟩ := exists_cons5 r.remaining h5'
     obtain ⟨rest, hr, hrest⟩ : ∃ rest, r.remaining = et :: rest ∧ 4 ≤ rest.length :=
       ⟨x0 :: x1 :: x2 :: x3 :: tl0, hr0, by simp⟩
@@ -492,19 +503,7 @@ theorem cbr_list_case (hC : RdC P True bnd) (hbnd : reqBound ≤ bnd) (d : Nat) 
     · have hnn : toI32 N < 0 := by rw [toI32_neg_iff _ hlt]; exact hn
       simp only [hnn, hn, not_false_eq_true, if_true]
       exact ⟨errNeg, rfl, ErrFor.neg⟩
-  · have hlt : r.remaining.length < 5 := hl
-    have htr : (match r.remaining with
-        | et :: rest =>
-          if rest.length < 4 then (.error .truncated : CRes)
-          else if ¬ rd32 rest < 2147483648 then .error .negativeSize
-          else (causeN (causeElem (causeStream d) et) (rd32 rest) (rest.drop 4)).map (5 + ·)
-        | [] => .error .truncated) = .error .truncated := by
-      match hr : r.remaining with
-      | [] => rfl
-      | et :: rest =>
-        have : rest.length < 4 := by rw [hr] at hlt; simp at hlt; omega
-        simp [this]
-    rw [htr]
+  · rw [causeLayer_list_short _ t htl _ hl]
     exact ⟨.wrap se, by simp [hx], ErrFor.trunc se⟩
 
 /-- BufferReader.skipType over an exact reader: error-exact agreement with `causeStream` -/
